@@ -11,6 +11,7 @@ CONSTANTS N = 3
  VCBatchPolicy = "none"
  AggBatchFor = "none"
  MemoVerifier = FALSE
+ DomainCache = FALSE
  ReplayPolicy = "admit"
 INVARIANTS OnlyValidEnter
 CHECK_DEADLOCK FALSE
